@@ -735,34 +735,47 @@ func checkTwoWayLookupsIndependent(p *Prog, r *Report) {
 				if _, fl, ok := fieldLoad(ia.X); !ok || fl != "Types" {
 					continue
 				}
-				// &s.Types[i] taken as a value (flows to a phi / store), not only dereferenced
-				taken := false
+				// &s.Types[i] taken as a value (flows to a phi / store), not only
+				// dereferenced: each place where it is taken is judged by the
+				// tests under which that place is reached
+				var at []*ssa.BasicBlock
 				for _, ref := range referrers(ia) {
-					switch ref.(type) {
-					case *ssa.Phi, *ssa.Store:
-						taken = true
+					switch x := ref.(type) {
+					case *ssa.Phi:
+						for i, e := range x.Edges {
+							if e == ssa.Value(ia) {
+								at = append(at, x.Block().Preds[i])
+							}
+						}
+					case *ssa.Store:
+						if x.Val == ssa.Value(ia) {
+							at = append(at, x.Block())
+						}
 					}
 				}
-				if !taken {
-					continue
+				for k, ub := range at {
+					n++
+					nameTests := 0
+					for _, ef := range factsAt(ub) {
+						if ef.From == nil || !loop[ef.From] || ef.From == h {
+							continue
+						}
+						bo, ok := ef.Cond.(*ssa.BinOp)
+						if !ok {
+							continue
+						}
+						if _, fl, ok := fieldLoad(bo.X); ok && fl == "Name" {
+							nameTests++
+						} else if _, fl, ok := fieldLoad(bo.Y); ok && fl == "Name" {
+							nameTests++
+						}
+					}
+					key := "AddTwoWayRel:" + p.describe(ia)
+					if k > 0 {
+						key += fmt.Sprintf("#%d", k+1)
+					}
+					r.decide(nameTests == 1, "C14.two-way-lookups", key, p.pos(ia.Pos()), "guarded by its own name test only", fmt.Sprintf("the type of one end is looked up under %d name tests: whether it is found depends on the other end's test, so a relationship between a type and itself does not find its second end", nameTests))
 				}
-				n++
-				nameTests := 0
-				for _, ef := range factsAt(b) {
-					if ef.From == nil || !loop[ef.From] || ef.From == h {
-						continue
-					}
-					bo, ok := ef.Cond.(*ssa.BinOp)
-					if !ok {
-						continue
-					}
-					if _, fl, ok := fieldLoad(bo.X); ok && fl == "Name" {
-						nameTests++
-					} else if _, fl, ok := fieldLoad(bo.Y); ok && fl == "Name" {
-						nameTests++
-					}
-				}
-				r.decide(nameTests == 1, "C14.two-way-lookups", "AddTwoWayRel:"+p.describe(ia), p.pos(ia.Pos()), "guarded by its own name test only", fmt.Sprintf("the type of one end is looked up under %d name tests: whether it is found depends on the other end's test, so a relationship between a type and itself does not find its second end", nameTests))
 			}
 		}
 	}
